@@ -37,6 +37,8 @@ def _body_nodes(br: ast.If):
 
 def run(chk) -> None:
     repo = chk.repo
+    from ._engine import engine_view
+    chk.extra["helpers_inlined"] = engine_view(repo)
     mc, sr = repo.func(f"{CL}:_process_step_result_tick")
     loop = next((n for n in ast.walk(sr) if isinstance(n, ast.For) and ast.unparse(n.iter).endswith(".result")), None)
     if loop is None:
@@ -48,7 +50,7 @@ def run(chk) -> None:
         """a comparison whose operands derive from the live buffer and from the invocation's snapshot"""
         for n in nodes:
             if isinstance(n, ast.Compare):
-                txt = ast.unparse(expand(n, n, depth=3))
+                txt = ast.unparse(expand(n, n, depth=3, provenance=True))
                 if "shared_state.collected_events" in txt and (".collected_events" in txt.replace("shared_state.collected_events", "")):
                     return True
         return False
